@@ -49,11 +49,11 @@ def _draw_layout(rng, *, max_features=12, min_samples=14, max_samples=30, allow_
         else:
             names = rng.sample(_FNAMES, 2)
             if rng.random() < 0.5 and share >= 4:
-                a = rng.randint(2, max(2, min(4, share // 2)))
+                a = rng.randint(2, max(2, min(4 if max_features <= 12 else 6, share // 2)))
                 b = rng.randint(2, max(2, share // a))
                 fd = [[names[0][0], a, names[0][1]], [names[1][0], b, names[1][1]]]
             else:
-                fd = [[names[0][0], rng.randint(2, max(2, min(share, 8))), names[0][1]]]
+                fd = [[names[0][0], rng.randint(2, max(2, min(share, 8 if max_features <= 12 else 16))), names[0][1]]]
             fd = [[n, s, ("int" if (k_ == "str" and not allow_str) else k_)] for n, s, k_ in fd]
         if first is None:
             first = fd
@@ -64,6 +64,11 @@ def _draw_layout(rng, *, max_features=12, min_samples=14, max_samples=30, allow_
         fields.append(fd)
     d["fields"] = fields
     d["names"] = rng.choice([["v0", "v1", "v2"], ["sst", "slp", "u"], ["a", "b", "c"]])
+    if container == "list" and rng.random() < 0.06 and max_features >= 11:
+        # a long list: per-item bookkeeping is keyed "0".."10" in the serialised tree ("10" sorts before "2")
+        k = rng.randint(10, 11)
+        d["fields"] = [[[rng.choice(["x", "y", "lev"]), 1, "int"]] for _ in range(k)]
+        d["names"] = [f"item{i}" for i in range(k)]
     # steep spectra keep the mode order robust; flat ones make rotations re-rank modes (sorting bookkeeping)
     d["ratio"] = rng.choice([0.5, 0.6, 0.7, 0.9, 0.95])
     d["scale"] = rng.choice([1.0, 1.0, 10.0, 0.1])
